@@ -149,7 +149,7 @@ CHECKS['C06'] = dict(
 
 
 SHIM_WRAP = '-Wl,' + ','.join('--wrap=' + f for f in (
-    'clock_gettime timerfd_create timerfd_settime close pipe dup epoll_create1 eventfd signalfd inotify_init1 syscall epoll_wait epoll_ctl write read').split())
+    'clock_gettime timerfd_create timerfd_settime close pipe dup epoll_create1 eventfd signalfd inotify_init1 syscall epoll_wait epoll_ctl write read regcomp regfree').split())
 ALL_LIBS = ['core', 'thpool', 'structs', 'mem', 'utils']
 
 
@@ -192,7 +192,11 @@ _WORLD_EXTRA = {
     'C19': ([(3, 0, 4), (2, 0, 6)], []),
     'C01': ([(3, 1, 4)], []),
 }
-_WORLD_EXTRA_PROFILE = {'C03': (('C03E', 2, 0, 3), ('C03E', 2, 0, 5))}     # signal / path / pid events
+_WORLD_EXTRA_PROFILE = {      # further profiles of harness/world.c run under the same property: [(quick, thorough)], each (profile, modules, deviations, depth)
+    'C03': [(('C03E', 2, 0, 3), ('C03E', 2, 0, 5))],      # signal / path / pid events
+    'C09': [(('C09S', 1, 0, 6), ('C09S', 1, 0, 8)),       # subscriptions alone (DUP topics, auto-free user data, replacement)
+            (('C09X', 1, 0, 3), ('C09X', 1, 0, 4))],      # sources and subscriptions together
+}
 for _p, (_q, _t) in _WORLD.items():
     _xq, _xt = _WORLD_EXTRA.get(_p, ([], []))
     CHECKS[_p] = dict(title=_p, parallel=1, rule='BFS over histories of the %s profile of harness/world.c (see DESIGN.md 6/%s): dedup on (canonical monitor state, last k ops), 2 probe suffixes per new state' % (_p, _p),
@@ -201,11 +205,11 @@ for _p, (_q, _t) in _WORLD.items():
                       assumptions=['single thread, one context', 'real kernel pipes/epoll, virtual time through the link-time shim', 'handles passed are live references owned by the caller'],
                       parts=[world_part('w', quick=[_w(_p, _q[0], _q[1], _q[2], 250, _WORLD_K.get(_p, 1))] + [_w(_p, x[0], x[1], x[2], 200) for x in _xq],
                                         thorough=[_w(_p, _t[0], _t[1], _t[2], 1200, 2)] + [_w(_p, x[0], x[1], x[2], 600, 2) for x in _xt])])
-    if _p in _WORLD_EXTRA_PROFILE:
-        _eq, _et = _WORLD_EXTRA_PROFILE[_p]
+    for _eq, _et in _WORLD_EXTRA_PROFILE.get(_p, []):
         CHECKS[_p]['parts'][0]['quick'].append(_w(_eq[0], _eq[1], _eq[2], _eq[3], 200))
         CHECKS[_p]['parts'][0]['thorough'].append(_w(_et[0], _et[1], _et[2], _et[3], 600, 2))
         CHECKS[_p]['bounds']['quick'] += '; profile %s modules=%d depth=%d' % (_eq[0], _eq[1], _eq[3])
+        CHECKS[_p]['bounds']['thorough'] += '; profile %s modules=%d depth=%d k=2' % (_et[0], _et[1], _et[3])
 
 
 def _c14_runs(threads, prog, budget, dl, foreign=0, workers=8):
